@@ -10,7 +10,7 @@ propagation) and a ResolverError nulls exactly its field.
 import collections
 
 from ..gen import schemair as S
-from ..gen.world import Obj, salt_of, serialize_leaf
+from ..gen.world import Obj, message_as_raised, salt_of, serialize_leaf
 from . import refcoerce
 from .refcoerce import Var
 
@@ -118,7 +118,7 @@ class RefExecutor(object):
         out = self.world.outcome(object_type, f.name, obj.oid, salt_of(kwargs))
         if out[0] == "error":
             self.errors.append((path, "resolver"))
-            self.error_messages.append(out[1])
+            self.error_messages.append(message_as_raised(out[1]))
             return None
         if out[0] == "crash":
             self.crashes.append(path)
